@@ -92,6 +92,13 @@ def step (s : St) (ts : List String) : St × String :=
       let h := buildSkip s.store (s.scan false) ⟨i, n, p, none⟩
       ({ s with hdrs := setAt s.hdrs i h }, s!"skip={showOpt h.skip}")
     | _, _, _ => (s, "bad-op")
+  | ["nhdr", i, n, p] =>
+    -- node-level stream: the header is known to the node; skip pointers are not observable there
+    match parseNat? i, parseNat? n, parseNat? p with
+    | some i, some n, some p =>
+      let h := buildSkip s.store (s.scan false) ⟨i, n, p, none⟩
+      ({ s with hdrs := setAt s.hdrs i h }, "ok")
+    | _, _, _ => (s, "bad-op")
   | ["main", i] =>
     match (parseNat? i).bind s.store with
     | some tip =>
